@@ -134,6 +134,7 @@ Proof. intro E. unfold read_artifact_file. rewrite E. reflexivity. Qed.
 
 (* ================================================================ verifier crate *)
 Section VerifierProofs.
+  Set Default Proof Using "Type".
   Variable keccak : bytes -> bytes.
   Variables pin_v pin_c : bytes.
   Variable decode_ok : bytes -> bytes -> bool.
@@ -251,6 +252,7 @@ End VerifierProofs.
 
 (* ================================================================ aggregator crate *)
 Section AggregatorProofs.
+  Set Default Proof Using "Type".
   Variables leaf_c leaf_v : bytes.
   Variable canon_pb : Z -> bytes * bytes.
   Variable canon_pub : Z -> Z -> bytes * bytes.
@@ -365,7 +367,7 @@ Section AggregatorProofs.
       d F_COMMON = Some fc /\ d F_VERIFIER = Some fv /\ d F_DUMMY = Some fd /\
       f_len fc <= MAX_ARTIFACT_FILE_BYTES /\ f_len fv <= MAX_ARTIFACT_FILE_BYTES /\ f_len fd <= MAX_ARTIFACT_FILE_BYTES /\
       f_bytes fc = leaf_c /\ f_bytes fv = leaf_v /\ leaf_template_ok (f_bytes fd) = true.
-  Proof.
+  Proof using Type parse_wf.
     unfold private_prover_from_dir, CAP. split.
     - intro H.
       apply result_lbind in H. destruct H as (cfg & Hcfg & H). apply (load_config_ok d cfg parse_wf) in Hcfg.
@@ -397,7 +399,7 @@ Section AggregatorProofs.
       d F_PB_COMMON = Some fc /\ d F_PB_VERIFIER = Some fv /\ d F_PB_DUMMY = Some fd /\
       f_len fc <= MAX_ARTIFACT_FILE_BYTES /\ f_len fv <= MAX_ARTIFACT_FILE_BYTES /\ f_len fd <= MAX_ARTIFACT_FILE_BYTES /\
       f_bytes fc = fst (canon_pb n) /\ f_bytes fv = snd (canon_pb n) /\ pb_template_ok n (f_bytes fd) = true.
-  Proof.
+  Proof using Type parse_wf.
     unfold public_prover_from_dir, CAP. split.
     - intro H.
       apply result_lbind in H. destruct H as (cfg & Hcfg & H). apply (load_config_ok d cfg parse_wf) in Hcfg.
@@ -441,7 +443,7 @@ Section AggregatorProofs.
       cfg_ok (f_bytes fpc) = true /\
       reser_c (f_bytes fpc) = Some (fst (canon_pub m n)) /\ reser_v (f_bytes fpv) = Some (snd (canon_pub m n)) /\
       pb_template_ok n (f_bytes fd) = true.
-  Proof.
+  Proof using Type parse_wf.
     unfold aggregator_new, CAP. split.
     - intro H.
       apply result_lbind in H. destruct H as (cfg & Hcfg & H). apply (load_config_ok d cfg parse_wf) in Hcfg.
